@@ -320,8 +320,20 @@ func runCRLSeq() int {
 		// (the root as the caller writes it: not necessarily in clean form)
 		must(os.MkdirAll(filepath.Dir(root), 0755))
 		rootGiven := spell(root, filepath.Join(parent, "a-link"), mix(*flagSeed, c.ID, "spell"))
-		cache, err := crl.NewFileCache(rootGiven)
-		must(err)
+		var cache *crl.FileCache
+		if wd0, werr := os.Getwd(); *flagWorkers == 1 && werr == nil && !filepath.IsAbs(rootGiven) && !strings.HasPrefix(rootGiven, "..") {
+			// (single-worker runs only: the working directory belongs to the whole process) a relative root means what it means WHEN IT
+			// IS USED: the cache object is made while the process is in another working directory, then the process comes back
+			elsewhere := filepath.Join(parent, "another-working-directory")
+			must(os.MkdirAll(elsewhere, 0755))
+			must(os.Chdir(elsewhere))
+			cache, err = crl.NewFileCache(rootGiven)
+			must(os.Chdir(wd0))
+			must(err)
+		} else {
+			cache, err = crl.NewFileCache(rootGiven)
+			must(err)
+		}
 		// every other store goes through a SECOND cache object on the same directory (another component of the program, another
 		// program): what is in the cache is what is in the directory
 		cache2, err := crl.NewFileCache(root)
